@@ -878,8 +878,8 @@ def witnesses(res):
 def run(res, tier, seed, proofs_ok):
     rng = random.Random(seed)
     quick = tier == 'quick'
-    n_valid = 250 if quick else 2500
-    n_bad = 200 if quick else 1500
+    n_valid = 250 if quick else 4000
+    n_bad = 200 if quick else 2500
     res.rule = ('abstract material cards (1-30 entries, Z in 1..118, mass '
                 'numbers incl. 000, leading zeros, library suffixes, keyword '
                 'entries in every position, repeated nuclides, 25 fraction '
@@ -898,7 +898,7 @@ def run(res, tier, seed, proofs_ok):
     with cover:
         run_split(res, rng, quick)
         run_cards(res, rng, n_valid, n_bad)
-        run_decks(res, rng, 70 if quick else 1500)
+        run_decks(res, rng, 70 if quick else 2000)
     total, missing, stale = cover.report()
     res.obligation(f'coverage: every executable line ({total}) of the '
                    f'{cover.n_functions} modelled functions is executed by a '
@@ -944,10 +944,11 @@ def run_symbols(res):
                       {'input': {'len': n_enum}}, found_input=True)
 
 
-def gen_content(rng):
-    '''One-line content of a data card, of many shapes.'''
+def gen_content(rng, small=False):
+    '''One-line content of a data card, of many shapes (small: numbers 0..3,
+    so that blocks repeat material numbers).'''
     kind = rng.random()
-    n = rng.randint(0, 130)
+    n = rng.randint(0, 3) if small else rng.randint(0, 130)
     if kind < 0.35:
         head = rng.choice(['m', 'M']) + rng.choice(['', '0', '00']) + str(n)
         toks = tokens_of(gen_card(rng, valid=True)[0])[:8]
@@ -968,7 +969,7 @@ def gen_content(rng):
 
 
 def run_split(res, rng, quick):
-    contents = [gen_content(rng) for _ in range(400 if quick else 3000)]
+    contents = [gen_content(rng) for _ in range(400 if quick else 6000)]
     cases, meta = [], []
     for content in contents:
         if not ascii_ok(content.replace('\t', ' ')):
@@ -998,8 +999,9 @@ def run_split(res, rng, quick):
                       found_input=False)
     # whole data blocks
     cases, meta = [], []
-    for _ in range(120 if quick else 1200):
-        block = [gen_content(rng).replace('\t', ' ')
+    for _ in range(120 if quick else 2500):
+        small = rng.random() < 0.5
+        block = [gen_content(rng, small).replace('\t', ' ')
                  for _ in range(rng.randint(0, 6))]
         if rng.random() < 0.7:
             block = [c for c in block if impl_split(c) is not None
@@ -1028,6 +1030,11 @@ def run_split(res, rng, quick):
         res.seen(('block', block), nontrivial=len(block) >= 2)
         res.count('materials:' + (out[1] if out[0] == 'err' else
                                   f'{min(len(out[1]), 4)}'))
+        heads = [m.group(1) for m in
+                 (re.match(r'\s*[mM]0*([0-9]+)(?![0-9*])', c) for c in block)
+                 if m]
+        if len(set(heads)) < len(heads):
+            res.count('materials:repeated-number')
     bad, errs = common.run_case_files(
         'c10_mats', HEADER, 'list string * res (list (N * list string))',
         'check_materials', cases)
